@@ -45,6 +45,10 @@ func NewBufferReadWriter(size uint64) *BufferReadWriter {
 
 // Write implements io.Writer by using WriteAt with current write offset.
 func (b *BufferReadWriter) Write(p []byte) (n int, err error) {
+	if len(p) == 0 {
+		// Like a file, writing nothing changes nothing (WriteAtBuffer would grow to the offset).
+		return 0, nil
+	}
 	n, err = b.buf.WriteAt(p, b.offset)
 	b.offset += int64(n)
 	return n, err
@@ -54,6 +58,9 @@ func (b *BufferReadWriter) Write(p []byte) (n int, err error) {
 func (b *BufferReadWriter) WriteAt(p []byte, off int64) (n int, err error) {
 	if off < 0 {
 		return 0, fmt.Errorf("negative offset")
+	}
+	if len(p) == 0 {
+		return 0, nil
 	}
 	return b.buf.WriteAt(p, off)
 }
